@@ -1052,6 +1052,22 @@ func expandCurlyBraces(s string) []string {
 		return []string{s}
 	}
 
+	// The number of expanded strings is the product of the number of
+	// alternatives of each group; do not expand more than about 1000.
+	for i, n, alts := 0, 1, 1; i < len(s); i++ {
+		switch s[i] {
+		case '{':
+			alts = 1
+		case ',':
+			alts++
+		case '}':
+			n, alts = n*alts, 1
+		}
+		if n > 1000 {
+			return []string{s}
+		}
+	}
+
 	var expanded []string
 	pieceStart := lbrace + 1
 	for pieceStart < rbrace+1 {
